@@ -11,6 +11,7 @@ CONSTANTS
   ContentsC = {"mix", "min"}
   FlagsC = {TRUE}
   AbsC = {FALSE}
+  KeepC = {"only"}
   LastC = {}
   Design = "unused"
 INVARIANTS Inv_C02 Inv_Wf
